@@ -1053,7 +1053,7 @@ def clean(lines):
             break
 
 
-def drive(run, profile, nscripts, nops, theorem_pid=None, asan=False, reopen=False, extra_check=None, audit=False, geometry=0, boundary=0, bigfile=0, slack=True, destroy=0, thin=0, uplink=0, probe=0, hugekey=0, ringrun=0, skipfail=0):
+def drive(run, profile, nscripts, nops, theorem_pid=None, asan=False, reopen=False, extra_check=None, audit=False, geometry=0, boundary=0, bigfile=0, slack=True, destroy=0, thin=0, uplink=0, probe=0, hugekey=0, ringrun=0, skipfail=0, trailer=0):
     """common body of the KV checks"""
     proofs_ok = run.proofs(theorem_pid or run.pid)
     impl = vlib.build_harness("h_kv", "asan" if asan else "plain")
@@ -1090,6 +1090,10 @@ def drive(run, profile, nscripts, nops, theorem_pid=None, asan=False, reopen=Fal
             rng = run.rng.fork()
             ls, meta = thin_script(rng, os.path.join(work, "t%d.db" % n), wal=rng.below(2))
             scripts.append(("thin%d" % n, ls, meta))
+        for n in range(trailer or 0):
+            rng = run.rng.fork()
+            ls, meta = trailer_script(rng, os.path.join(work, "tr%d.db" % n), wal=0)
+            scripts.append(("trailer%d" % n, ls, meta))
         for n in range(skipfail or 0):
             rng = run.rng.fork()
             ls, meta = skipfail_script(rng, os.path.join(work, "sf%d.db" % n), wal=rng.below(2))
@@ -1159,9 +1163,9 @@ def drive(run, profile, nscripts, nops, theorem_pid=None, asan=False, reopen=Fal
                         return r not in (0, None) or (o and o[-1] is None)
                     return any(b[1].split("  [line")[0] == first_msg for b in oc.bad)
                 origin = name.rstrip("0123456789")
-                if origin == "ringrun":
+                if origin in ("ringrun", "trailer"):
                     # a directed reproduction keeps its identity (the known-findings file names it): not minimised, not counted
-                    run.violation({"script": final[:8] + ["... (checks/kvcommon.py ringrun_script)"], "modes": meta["modes"], "kind": kind,
+                    run.violation({"script": [l[:200] for l in final[:8]] + ["... (checks/kvcommon.py %s_script)" % origin], "modes": meta["modes"], "kind": kind,
                                    "class": first_msg or "crash", "origin": origin, "harness": "h_kv",
                                    "failures": [b[1] for b in orc.bad[:5]]}, why)
                     continue
@@ -1396,6 +1400,17 @@ def thin_script(rng, path, wal=0):
         L.append("get 0 %s 0" % hexb(b"k%05d" % i))
     L += ["dump 0", "struct 0", "dump 1", "sync", "close", "open %s %d 0 0 0" % (path, wal), "db 0 1 000", "db 1 2 000", "dump 0", "dump 1", "getmeta 1 10000", "close"]
     return L, {"modes": ["000", "000"], "wal": wal}
+
+
+def trailer_script(rng, path, wal=0):
+    """user data that looks like the trailer of an online-backup image: a 60000-byte value filled with 0x7f whose last twelve
+    bytes are a little-endian u64 20480 and the u32 IWKV_BACKUP_MAGIC; its block ends the trimmed file, so after a clean close
+    the file ends with these bytes.  Reproduces the recorded finding C03-backup-trailer-in-user-data (a read-write open takes
+    the store for a backup image, truncates it and dies)."""
+    val = b"\x7f" * (60000 - 12) + (20480).to_bytes(8, "little") + (0xBACBAC69).to_bytes(4, "little")
+    L = ["open %s %d 0 1 0" % (path, wal), "db 0 1 000", "put 0 6b 0 %s 0 0" % hexb(val), "close",
+         "open %s %d 0 0 0" % (path, wal), "db 0 1 000", "get 0 6b 0", "dump 0", "close"]
+    return L, {"modes": ["000"], "wal": wal}
 
 
 def skipfail_script(rng, path, wal=0):
